@@ -29,6 +29,12 @@ except Exception:  # noqa: BLE001
 
 def gen(rng, i, tier):
     ents = _entries()
+    if rng.random() < 0.08:
+        # Pre_Proc.rebin: integer-valued abscissae/data on an integer grid (step 1) so that int and float copies can be compared
+        n = int(rng.integers(4, 30))
+        x = np.concatenate([np.arange(n), rng.integers(0, n, 5)]).astype(float)
+        y = rng.integers(-5, 6, len(x)).astype(float)
+        return dict(entry="Pre_Proc.rebin", args=[tolist(x), tolist(y), 0.0, 1.0, float(n - 1)], kw={}, intvalued=True)
     entry = ents[int(rng.integers(0, len(ents)))]
     c = cases.make_case(rng, entry, maxn=40)
     intv = bool(rng.random() < 0.4)
